@@ -138,7 +138,7 @@ func witnesses() []histCfg {
 		{
 			// an index over two STRING fields: its keys exceed the store's key length, the index is never
 			// built and a query that scans it waits forever
-			name: "witness-two-string-index", untied: true, ownEngine: true,
+			name: "witness-two-string-index", ownEngine: true,
 			coll: &Coll{Name: "c19", IDName: "_id", Fields: []Field{{"s", tStr, 1}, {"t", tStr, 2}}, nextGen: 2},
 			fixed: func(h *hist) {
 				old := opTimeout
